@@ -600,12 +600,16 @@ func (app *EVMApp) queryContract(load []byte, height uint64) gtypes.Result {
 
 	var vmEnv *vm.EVM
 
+	// a query runs on this node only: it must not reach the admin precompile
+	queryConfig := evmConfig
+	queryConfig.DisableAdminOp = true
+
 	if height == 0 {
 
 		envCxt := core.NewEVMContext(txMsg, app.currentHeader, bc, nil)
 
 		app.stateMtx.Lock()
-		vmEnv = vm.NewEVM(envCxt, app.state.Copy(), app.chainConfig, evmConfig)
+		vmEnv = vm.NewEVM(envCxt, app.state.Copy(), app.chainConfig, queryConfig)
 		app.stateMtx.Unlock()
 	} else {
 		//appHash save in next block AppHash
@@ -626,7 +630,7 @@ func (app *EVMApp) queryContract(load []byte, height uint64) gtypes.Result {
 		if err != nil {
 			return gtypes.NewError(gtypes.CodeType_BaseInvalidInput, err.Error())
 		}
-		vmEnv = vm.NewEVM(envCxt, state, app.chainConfig, evmConfig)
+		vmEnv = vm.NewEVM(envCxt, state, app.chainConfig, queryConfig)
 	}
 
 	gpl := new(core.GasPool).AddGas(math.MaxUint64)
